@@ -208,6 +208,10 @@ func Alphabet(g *CPGen, l LogCfg, st MState, o AlphaOpts) []Req {
 	}
 	if o.HugeOlds {
 		olds = append(olds, 1<<32, 1<<63, ^uint64(0))
+		if st.Has {
+			// the stored size plus 2^32 / 2^63: equal to it after a narrowing conversion
+			olds = append(olds, 1<<32+st.Size, 1<<63+st.Size)
+		}
 	}
 	var out []Req
 	s := -1
@@ -257,6 +261,19 @@ func Alphabet(g *CPGen, l LogCfg, st MState, o AlphaOpts) []Req {
 					}
 				}
 			}
+		}
+	}
+	if o.Forged && st.Has && sb != nil {
+		// Log-signed checkpoints at the stored size whose root hash is a
+		// prefix / an extension of the stored root, or empty: a different
+		// root, so never a "same checkpoint".
+		root := sb.Root(s)
+		for name, r := range map[string][]byte{"root-prefix-16": root[:16], "root-prefix-31": root[:31], "root-empty": {}, "root-plus-zero-byte": append(append([]byte{}, root...), 0)} {
+			text := uni.Body(l.Origin, uint64(s), r)
+			cp := u.Sign(text, l.Key.Signer)
+			out = append(out, Req{LogID: l.ID(), Old: uint64(s), CP: cp, Proof: [][]byte{},
+				Meta:  Meta{Origin: l.Origin, KeyName: KeyID(l.Key.Verif), Size: uint64(s), Root: r, Text: text, Branch: u.Forks[len(u.Forks)-1], Shape: "hostile-root"},
+				Label: fmt.Sprintf("log-signed @%d with %s old=%d", s, name, s)})
 		}
 	}
 	if o.Forged {
